@@ -28,6 +28,8 @@ func init() {
 			{"C15.R10", "q", "tree parameters derived after the number of buckets is final", c15r10},
 			{"C15.R11", "q", "served-bucket vector = the route table entry of this server", c15r11},
 			{"C15.R12", "q", "bucket directory naming and opening", c15r12},
+			{"C15.R13", "q", "hot-loaded bucket READY only after a successful open", c15r13},
+			{"C04.L7", "q", "shared: tree node summaries read under the tree lock", c04l7},
 		},
 	})
 }
